@@ -202,4 +202,43 @@ where
                     Err(e) => f.resolves(Err(e)),
                 })''', ['C12']),
          ])
+    # ---- ResponseBody: an intercepted veto has no body frames; a forwarded response body is forwarded frame by frame ----
+    u.raw('''
+// http_body::Body seen through one poll (A-httpbody-06); pin-project projections of ResponseBody / ResponseBodyKind (A-pinproject-09)
+pub trait FrameBody {
+    type Data; type Error;
+    spec fn polled(&self, r: Poll<Option<Result<http_body::Frame<Self::Data>, Self::Error>>>, post: &Self) -> bool;
+    spec fn at_end(&self) -> bool;
+    fn poll_frame(&mut self, cx: &mut Context) -> (r: Poll<Option<Result<http_body::Frame<Self::Data>, Self::Error>>>) ensures old(self).polled(r, final(self));
+    fn is_end_stream(&self) -> (r: bool) ensures r == self.at_end();
+}
+pub mod http_body { pub struct Frame<T> { pub t: T } }
+pub struct PinMutB<'a, B> { pub p: &'a mut B }
+impl<'a, B: FrameBody> PinMutB<'a, B> {
+    pub fn poll_frame(self, cx: &mut Context) -> (r: Poll<Option<Result<http_body::Frame<B::Data>, B::Error>>>) ensures old(self.p).polled(r, final(self.p)) { self.p.poll_frame(cx) }
+}
+pub enum ResponseBodyKindProj<'a, B> { Empty, Wrap(PinMutB<'a, B>) }
+pub struct ResponseBodyProj<'a, B> { pub kind: &'a mut ResponseBodyKind<B> }
+impl<B> ResponseBody<B> {
+    #[verifier::external_body]
+    pub fn project(&mut self) -> (r: ResponseBodyProj<'_, B>) ensures *r.kind == old(self).kind, *final(r.kind) == final(self).kind { unimplemented!() }
+}
+impl<B> ResponseBodyKind<B> {
+    #[verifier::external_body]
+    pub fn project(&mut self) -> (r: ResponseBodyKindProj<'_, B>)
+        ensures
+            (*old(self)) is Empty ==> r is Empty && (*final(self)) is Empty,
+            (*old(self)) is Wrap ==> r is Wrap && *(r->Wrap_0).p == (*old(self))->Wrap_0 && (*final(self)) is Wrap && *final((r->Wrap_0).p) == (*final(self))->Wrap_0,
+    { unimplemented!() }
+}
+''')
+    BH = 'impl<B: FrameBody> ResponseBody<B> {'
+    BW = 'impl<B: http_body::Body> http_body::Body for ResponseBody<B>'
+    fb = [lambda t: t.sub_code('R9', r'Self::Data', 'B::Data'), lambda t: t.sub_code('R9', r'Self::Error', 'B::Error')]
+    u.fn(IC, 'poll_frame', within=BW, header=BH, close=False, sig_edits=fb,
+         ensures=[Clause('B1_a_veto_response_has_no_body_frames', 'old(self).kind is Empty ==> (r matches Poll::Ready(None)) && final(self).kind is Empty'),
+                  Clause('B2_a_forwarded_body_is_forwarded_frame_by_frame', 'old(self).kind matches ResponseBodyKind::Wrap(b) ==> final(self).kind is Wrap && b.polled(r, &final(self).kind->Wrap_0)')])
+    u.fn(IC, 'is_end_stream', within=BW,
+         ensures=[Clause('B3_end_of_stream', 'r == (match self.kind { ResponseBodyKind::Empty => true, ResponseBodyKind::Wrap(b) => b.at_end() })')])
+    u.close('}')
     return u
